@@ -117,3 +117,35 @@ if __name__ == "__main__":
     spec = json.load(open(sys.argv[1]))
     res = run_versions(spec)
     sys.stdout.write("\n@@RESULT@@" + json.dumps(res) + "\n")
+
+
+def run_deps(spec):
+    """
+    spec = {"pkgroot","pkg","modules","store","identity","fns":[[mod,name]], "roots":[[mod,name]], "args":[...]}
+    -> {"deps": {mod.name: {"trans":[..],"direct":[..],"df":[[src,target]..]}}, "results": {...}}
+    """
+    import verif_rt
+    if not spec["identity"]:
+        setup_memento(spec["store"])
+    mods = import_program(spec["pkgroot"], spec["pkg"], spec["modules"])
+    deps = {}
+    if not spec["identity"]:
+        for mname, name in spec["fns"]:
+            fn = getattr(mods[mname], name)
+            key = "%s.%s" % (mname, name)
+            try:
+                g = fn.dependencies()
+                df = g.df()
+                deps[key] = {
+                    "trans": sorted(x.qualified_name_without_version for x in g.transitive_memento_fn_dependencies()),
+                    "direct": sorted(x.qualified_name_without_version for x in g.direct_memento_fn_dependencies()),
+                    "df": sorted([str(r["src"]), str(r["target"])] for _, r in df.iterrows()) if df is not None else [],
+                }
+            except BaseException as e:  # noqa
+                deps[key] = {"error": "%s: %s" % (type(e).__name__, str(e)[:300])}
+    verif_rt.take()
+    results = {}
+    for mname, name in spec["roots"]:
+        fn = getattr(mods[mname], name)
+        results["%s.%s" % (mname, name)] = [call_outcome(fn, a) for a in spec["args"]]
+    return {"deps": deps, "results": results}
